@@ -34,29 +34,28 @@ def generate(seed, tier, enlarged=False):
     from harness import emit
     for i in range(n):
         cases.append(emit.gen_case(rng))
+    # rows are snapshots: values kept as mutable objects, read back from the RAM emitter at different moments
+    from harness import ramalias
+    for i in range(n // 10):
+        cases.append(ramalias.gen_case(rng))
     return cases
 
 
 def run(cases, tier='quick', seed=0):
-    """two streams with their own correspondence layers: scheduler traces and row contents"""
-    from harness import emit
-    sc = [(i, c) for i, c in enumerate(cases) if c['kind'] == 'sched']
-    em = [(i, c) for i, c in enumerate(cases) if c['kind'] == 'emit']
-    r1 = sched.run_family(__import__('harness.c12', fromlist=['x']), [c for _, c in sc], seed, PROPS)
-    r2 = common.generic_run(emit, [c for _, c in em], seed, shard=200)
-    obs = [None] * len(cases)
-    out = {'observations': obs, 'oracle': [], 'corr_bad': [], 'corr_error': None, 'stats': {}, 'nontrivial': 0,
-           'samples': r1['samples'][:2] + r2['samples'][:2]}
-    for r, idx in ((r1, sc), (r2, em)):
-        for j, (i, _) in enumerate(idx):
-            obs[i] = r['observations'][j]
-        out['oracle'] += [(idx[j][0], m, s) for j, m, s in r['oracle']]
-        out['corr_bad'] += [idx[j][0] for j in r['corr_bad']]
-        out['stats'].update(r['stats'])
-        out['nontrivial'] += r['nontrivial']
-        if r['corr_error']:
-            out['corr_error'] = (out['corr_error'] or '') + r['corr_error']
-    return out
+    """three streams: scheduler traces and row contents (each with its own correspondence layer), RAM snapshots"""
+    from harness import emit, ramalias
+
+    class Ram:
+        __name__ = 'harness.ramalias'
+        IMPORTS, CHECK_FN, BAD_TERM = emit.IMPORTS, emit.CHECK_FN, emit.BAD_TERM
+        run_impl, oracle = staticmethod(ramalias.run_impl), staticmethod(ramalias.oracle)
+        nontrivial, stat_key = staticmethod(ramalias.nontrivial), staticmethod(ramalias.stat_key)
+        render = staticmethod(lambda c, ob: None)
+    me = __import__('harness.c12', fromlist=['x'])
+    return common.merge_streams(cases, [
+        (lambda c: c['kind'] == 'sched', lambda cs: sched.run_family(me, cs, seed, PROPS)),
+        (lambda c: c['kind'] == 'emit', lambda cs: common.generic_run(emit, cs, seed, shard=200)),
+        (lambda c: c['kind'] == 'ramalias', lambda cs: common.generic_run(Ram, cs, seed, shard=200))])
 
 
 def model_output(case, ob):
